@@ -285,12 +285,12 @@ func (r *Run) Finish() int {
 		fmt.Printf("VIOLATION property=%s replay=%s\n  identity: %s\n  detail: %s\n", r.Property, p, id, v.Detail)
 	}
 	cov := map[string]any{
-		"evaluations":                   r.Evaluations.Load(),
-		"distinct_nontrivial":           len(r.distinct),
-		"rule":                          r.Rule,
-		"samples":                       r.samples,
-		"exhaustive":                    !r.Capped.Load(),
-		"known_findings_observed":       kids,
+		"evaluations":             r.Evaluations.Load(),
+		"distinct_nontrivial":     len(r.distinct),
+		"rule":                    r.Rule,
+		"samples":                 r.samples,
+		"exhaustive":              !r.Capped.Load(),
+		"known_findings_observed": kids,
 	}
 	if r.States.Load() > 0 && r.Transitions.Load() > 0 {
 		cov["states"] = r.States.Load()
@@ -378,7 +378,7 @@ func Hex(b []byte) string {
 	return hex.EncodeToString(b)
 }
 func HexFull(b []byte) string { return hex.EncodeToString(b) }
-func UnHex(s string) []byte  { b, _ := hex.DecodeString(s); return b }
+func UnHex(s string) []byte   { b, _ := hex.DecodeString(s); return b }
 
 // Guard runs f and converts a panic into (panicked=true, msg).
 func Guard(f func()) (panicked bool, msg string) {
